@@ -9,7 +9,7 @@ ENTRIES = ["Transformer.apply_cropping", "Transformer.fourier_transform"]
 RULE = ("random grid/data/uncertainty; window with limits on grid points (40%), between points, partly outside the data or "
         "absent; options lorch / correction at random; outside points replaced by other finite values and by NaN/inf; "
         "non-trivial = at least one point outside and two inside the window")
-DIST = ["wkind", "lorch", "omitted"]
+DIST = ["wkind", "lorch", "omitted", "side"]
 SHRINK = None
 
 
@@ -32,8 +32,12 @@ def gen(rng, i, tier):
         lo, hi, wk = None, None, "absent"
     if lo is not None and int(((x >= lo) & (x <= hi)).sum()) < 2:
         lo, hi, wk = float(x[0]), float(x[-2]), "on-points"
+    # one-sided windows: only xmin or only xmax given (the other side is the data range)
+    side = "both"
+    if lo is not None and rng.random() < 0.35:
+        side = "xmax-only" if rng.random() < 0.5 else "xmin-only"
     return dict(x=tolist(x), y=tolist(y), dy=tolist(dy), xo=tolist(xo), lo=lo, hi=hi, wkind=wk,
-                lorch=bool(rng.random() < 0.4), omitted=bool(rng.random() < 0.3), pert=float(rng.normal() * 5))
+                lorch=bool(rng.random() < 0.4), omitted=bool(rng.random() < 0.3), pert=float(rng.normal() * 5), side=side)
 
 
 def same(a, b):
@@ -55,6 +59,20 @@ def evaluate(case):
         expl = tr.fourier_transform(x, y, xo, xmin=float(x.min()), xmax=float(x.max()), dy_in=dy, **kw)
         if not same(full, expl):
             fails.append("fourier_transform: omitting the window differs from the full data range")
+        return fails
+    side = case.get("side", "both")
+    if side != "both":
+        # a one-sided window: the omitted side means the data range; equivalent to the explicit two-sided window
+        one = dict(xmax=hi) if side == "xmax-only" else dict(xmin=lo)
+        two = dict(xmin=float(x.min()), xmax=hi) if side == "xmax-only" else dict(xmin=lo, xmax=float(x.max()))
+        m1 = (x <= hi) if side == "xmax-only" else (x >= lo)
+        got = tr.fourier_transform(x, y, xo, dy_in=dy, **one, **kw)
+        exp = tr.fourier_transform(x, y, xo, dy_in=dy, **two, **kw)
+        pre = tr.fourier_transform(x[m1], y[m1], xo, dy_in=None if dy is None else dy[m1], **one, **kw)
+        if not same(got, exp):
+            fails.append(f"fourier_transform({side}): differs from the two-sided window with the data range on the omitted side")
+        elif not same(got, pre) and int(m1.sum()) >= 2:
+            fails.append(f"fourier_transform({side}): differs from transforming the pre-deleted data with the same window")
         return fails
     m = (x >= lo) & (x <= hi)
     cx, cy, ce = tr.apply_cropping(x, y, lo, hi, dy=dy)
